@@ -389,6 +389,7 @@ var Customs = map[string]CustomFn{
 		}
 		return s, nil
 	},
+	"z0": func(a []interface{}) (interface{}, error) { return false, nil },    // zero-operand, succeeds with false
 	"t0": func(a []interface{}) (interface{}, error) { return true, nil },     // zero-operand, succeeds
 	"i0": func(a []interface{}) (interface{}, error) { return int64(7), nil }, // zero-operand, succeeds
 	"last": func(a []interface{}) (interface{}, error) { // variadic: its last argument
